@@ -529,6 +529,21 @@ fn run(ctx: &mut Ctx) {
             });
         }
     }
+    // methods (inherent and trait) named like the entry point and Go's special functions: only the top-level function
+    // `main` is the program's entry (added after a seeded change that took any name whose last segment is `main`)
+    if ctx.mine(45_000) {
+        let src = "struct Sv { p: int32 }\nimpl Sv {\n    fn main(self: Sv) -> string { \"method-main:\" + int32_to_string(self.p) }\n    fn init(self: Sv) -> int32 { self.p + 1 }\n    fn main0(self: Sv) -> int32 { self.p + 2 }\n}\ntrait Rn {\n    fn main(Self) -> string;\n}\nimpl Rn for int32 {\n    fn main(self: int32) -> string { \"trait-main\" }\n}\nimpl Rn for Sv {\n    fn main(self: Sv) -> string { \"trait-main-sv\" }\n}\nfn main() -> unit {\n    let s = Sv { p: 7 };\n    let _ = string_println(s.main());\n    let _ = string_println(int32_to_string(Sv::init(s)) + \" \" + int32_to_string(s.main0()));\n    let _ = string_println(Rn::main(3) + \" \" + Rn::main(s));\n    ()\n}\n";
+        let expected = "method-main:7\n8 9\ntrait-main trait-main-sv\n";
+        ctx.case("methods-named-like-the-entry-point", |c| {
+            if let Some((out, term, stderr)) = crate::exec::run_source(c, "C19", "methods-named-like-the-entry-point", src, 1_000_000) {
+                if out == expected && matches!(term, crate::goexec::Term::Ok) {
+                    c.count("entry_point_named_methods_ok", 1);
+                } else {
+                    c.violation("C19:method-named-like-the-entry-point".to_string(), format!("prints {:?} ({:?} {}), expected {:?}", out, term, util::truncate(&stderr, 80), expected), json!({"source": src}));
+                }
+            }
+        });
+    }
     // A. renamings
     let opts = DiffOpts { prop: "C19", vet_is_violation: false, budget: 400_000, print: PrintOpts::default() };
     let n = tier.pickn(240u64, 6_400u64) / ctx.nshards as u64 + 1;
